@@ -391,6 +391,11 @@ class SqliteIndex(Index):
         if self.manifest.selection_dict:
             picklist = self.manifest.selection_dict.get("picklist")
 
+        # restrict the hash lookup to the sketches this index was select()ed down to
+        selected_ids = None
+        if self.manifest.selection_dict:
+            selected_ids = {row["_id"] for row in self.manifest.rows}
+
         c1 = self.conn.cursor()
         c2 = self.conn.cursor()
 
@@ -398,6 +403,8 @@ class SqliteIndex(Index):
         t0 = time.time()
         xx = self._get_matching_sketches(c1, query_mh.hashes, query_mh._max_hash)
         for sketch_id, n_matching_hashes in xx:
+            if selected_ids is not None and sketch_id not in selected_ids:
+                continue
             debug_literal(
                 f"...got sketch {sketch_id}, with {n_matching_hashes} matching hashes in {time.time() - t0:.2f}"
             )
